@@ -39,4 +39,21 @@ Loadable(mem) == Len(mem) >= 8 /\ LoadSpec(FALSE, mem).k = "ok"
 InfoWalk(mem) == WalkFrom(mem, 8, U32At(mem, 0), <<>>)
 
 ModuleTyp == <<3, 0, 0, 0>>
+ModuleBase == 16
+\* The module iterator: the module-typed tags of the walk, in order.  A module tag smaller
+\* than its fixed part (16) cannot be viewed as a module tag: that next() panics (C05).
+\* Whether iteration goes on after such a panic is not specified: afterwards both the
+\* continuation with the following module and panic / none are accepted.
+ModItems(w) == ItemsOfType(w, ModuleTyp)
+\* k = module-typed items consumed so far (yielded or rejected by a panic); cp = a rejection happened
+AcceptTagNextMod(w, k, cp, dead, o) ==
+  LET ms == ModItems(w)
+      cont == IF k < Len(ms) THEN
+                 IF ms[k + 1].size < ModuleBase THEN o.k = "panic"
+                 ELSE /\ o.k = "some" /\ o.v.at = ms[k + 1].at
+                      /\ o.v.size = U32Bytes(ms[k + 1].size) /\ o.v.sv = RoundUp8(ms[k + 1].size)
+              ELSE IF w.fin = "none" THEN o.k = "none" ELSE o.k = "panic" IN
+  IF dead THEN o.k \in {"panic", "none"}
+  ELSE IF cp THEN cont \/ o.k \in {"panic", "none"}
+  ELSE cont
 =============================================================================
